@@ -558,7 +558,22 @@ def check_definition(chk, d, label, data, plans, vres, wf, case_extra=None):
             if l in laws:
                 laws.remove(l)
     accepted = vres == ("ok", [])
-    if oc == "stuck" or (oc == "spinning" and not wf):
+    legit_loop = False
+    if oc == "spinning" and not wf and res.get("exec_arn") and isinstance(d, dict) and not has_float(data):
+        # the defect of the definition may sit in states the run never reaches while what it does reach is a genuine
+        # loop (`Next` back to an earlier state — a mutation can make one): the reference semantics, which stops at an
+        # illegal site, then runs out of fuel without meeting one, and the execution loops by right
+        a = common.driver(["lint\till\t%s\t%s\t%s\t%s\t400" % (pj(machgen.for_model(d)), pj(data),
+                                                                pj(c01.model_ctx(res["exec_arn"], data)), pj(res["oracle"]))])[0].split("\t")
+        if a[0] == "ok":
+            mm = json.loads(a[1])
+            legit_loop = mm.get("status") == "FUEL" and not mm.get("ill")
+    if legit_loop:
+        chk.dist("engine.rejected_definition_loops_by_right")
+        for l in ("a delivery is left unacknowledged", "the engine never becomes quiescent (events are produced forever)"):
+            if l in laws:
+                laws.remove(l)
+    if oc == "stuck" or (oc == "spinning" and not wf and not legit_loop):
         laws.append("its own execution is left RUNNING for ever instead of FAILED")
     if accepted and oc == "illegal":
         laws.insert(0, "a definition the validator accepts fails at run time as an Illegal State Machine")
